@@ -1479,6 +1479,9 @@ def norm(x, ord=None, axis=None, keepdims=False):
         x = x.astype(float)
 
     if axis is None:
+        if ord is None and x.ndim > 2:
+            # like numpy: the 2-norm of x.ravel(), whatever the number of dimensions
+            return (abs(x) ** 2).sum(keepdims=keepdims) ** 0.5
         axis = tuple(range(x.ndim))
     elif isinstance(axis, Number):
         axis = (int(axis),)
